@@ -44,6 +44,17 @@ Decided structurally (clauses that are necessary for the property; the rendered 
             a conditional line break - with the polarity inverted it is refuted (earlier lines are dropped).
             Not decided: a memoised index behind the usage table (C20-r73) - whether it is stale depends on who else
             mutates the shared row list, not on the shape of __repr__.
+* round 8 - a parameter object (`sheet = _SheetContext(fields=.., table=.., ..)`, NamedTuple / frozen dataclass) threaded
+            through the row writer is rewritten to separate parameters before the rules run (`_explode_param_object`);
+            the name handed to `t.__getattribute__` is checked by a forward must-analysis of `<name> in t.__dict__`
+            (`_must_be_attribute`), so renamed locals and container aliases do not matter; the cells of a day line may
+            come from a package generator that yields once per resource (`gen_summary`); `(cell if .. else
+            _TextTableCell('', ..)).text` is read as the cell text / ''.  Refuted: str methods applied to the cell text
+            while rendering (`.upper()`, `.title()` ..: widths were measured from the raw text), a running max / min of
+            the report period whose update sits in the elif of another test.
+            A row writer that does not call itself but still reaches descendants (flat pass over all_children, explicit
+            stack) is UNDECIDED: the recursion-based obligations do not describe it (C20-r83: depth tracked
+            incrementally in such a pass - not decidable from the shape).
 * depth   - indentation multiplied by a value read off the printed task alone (`len(task.all_parents)`, a helper that
             only receives the task) is refuted: the level is relative to the printed tasks and only the recursion knows it.
 
@@ -71,7 +82,7 @@ from sa.pat import match, same, attr_path
 from sa.types import base
 from .c20_util import (Counter, Accumulator, value_set, bind_args, compare, c_norm, c_const, fmt_count, parts_of, cases_of,
                        const_str, eq_const, cmp_norm, cmp_oriented, split_disj, range_over, is_zero, mentions, root_name,
-                       is_opaque, xexpand, truth)
+                       is_opaque, xexpand, truth, gen_summary)
 
 SUBTREE = 'task._Repr.__print_task_subtree'
 REPR = 'task._Repr.repr'
@@ -115,8 +126,96 @@ def _classmethods_as_static(ctx):
         ctx.assume("classmethods of _Repr that use `cls` only to name the class are read as staticmethods: " + ', '.join(sorted(done)))
 
 
+def _record_fields(prog, cname):
+    """field names, in order, of an immutable record class of the package (NamedTuple / frozen dataclass), else None"""
+    ci = prog.classes.get(cname)
+    if ci is None:
+        return None
+    is_nt = any((isinstance(b, ast.Name) and b.id == 'NamedTuple') or (isinstance(b, ast.Attribute) and b.attr == 'NamedTuple') for b in ci.node.bases)
+    if not (is_nt or ci.dataclass_frozen):
+        return None
+    out = [st.target.id for st in ci.node.body if isinstance(st, ast.AnnAssign) and isinstance(st.target, ast.Name)]
+    return out or None
+
+
+def _explode_param_object(ctx):
+    """`sheet = _SheetContext(fields=fields, table=table, ..)` built once in _Repr.repr and threaded through the recursive row
+    writer as ONE parameter whose fields are only read (`sheet.fields`, `sheet.table.new_row(..)`) is the same program as
+    passing the fields as separate parameters.  The parsed tree is rewritten to that form (before cfg / flow / call graph are
+    built), purely syntactically and only when every use of the parameter is a field read or the unchanged hand-over in the
+    recursive call, the record class is immutable, and the constructor arguments are plain names not re-bound afterwards."""
+    from sa.model import AnchorMissing
+    prog = ctx.prog
+    try:
+        top, f = prog.func(REPR), prog.func(SUBTREE)
+    except AnchorMissing:
+        return
+    own_call = lambda c: (isinstance(c.func, ast.Attribute) and unmangle(c.func.attr) == f.name) or (isinstance(c.func, ast.Name) and c.func.id == f.name)
+    top_calls = [c for c in ast.walk(top.node) if isinstance(c, ast.Call) and own_call(c)]
+    if len(top_calls) != 1 or top_calls[0].keywords or any(isinstance(a, ast.Starred) for a in top_calls[0].args):
+        return
+    call = top_calls[0]
+    params = [a.arg for a in f.node.args.args]
+    if f.node.args.posonlyargs or f.node.args.kwonlyargs or f.node.args.vararg or f.node.args.kwarg or f.node.args.defaults:
+        return
+    for idx, a in enumerate(call.args):
+        if not (isinstance(a, ast.Name) and idx < len(params)):
+            continue
+        # the local is assigned exactly once, at the top level of _Repr.repr, by a constructor call of a record class
+        stores = [n for n in ast.walk(top.node) if isinstance(n, ast.Name) and n.id == a.id and isinstance(n.ctx, ast.Store)]
+        tl = [(i, st) for i, st in enumerate(top.node.body) if isinstance(st, ast.Assign) and len(st.targets) == 1
+              and isinstance(st.targets[0], ast.Name) and st.targets[0].id == a.id]
+        if len(stores) != 1 or len(tl) != 1:
+            continue
+        pos, st = tl[0]
+        ctor = st.value
+        if not (isinstance(ctor, ast.Call) and isinstance(ctor.func, ast.Name)):
+            continue
+        flds = _record_fields(prog, ctor.func.id)
+        if not flds or any(isinstance(x, ast.Starred) for x in ctor.args) or any(k.arg is None for k in ctor.keywords):
+            continue
+        given = dict(zip(flds, ctor.args))
+        given.update({k.arg: k.value for k in ctor.keywords})
+        if set(given) != set(flds) or not all(isinstance(v, ast.Name) for v in given.values()):
+            continue
+        later = {n.id for s2 in top.node.body[pos + 1:] for n in ast.walk(s2) if isinstance(n, ast.Name) and isinstance(n.ctx, ast.Store)}
+        if later & {v.id for v in given.values()}:
+            continue
+        # inside the row writer: only field reads and the unchanged hand-over
+        prm = params[idx]
+        uses = [n for n in ast.walk(f.node) if isinstance(n, ast.Name) and n.id == prm]
+        field_reads = {id(n.value): n for n in ast.walk(f.node) if isinstance(n, ast.Attribute) and isinstance(n.value, ast.Name)
+                       and n.value.id == prm and n.attr in flds and isinstance(n.ctx, ast.Load)}
+        rec_calls = [c for c in ast.walk(f.node) if isinstance(c, ast.Call) and own_call(c)]
+        handed = {id(c.args[idx]) for c in rec_calls if not c.keywords and len(c.args) == len(params) and isinstance(c.args[idx], ast.Name)
+                  and c.args[idx].id == prm}
+        if any(id(n) not in field_reads and id(n) not in handed for n in uses) or len(handed) != len(rec_calls):
+            continue
+        taken = {n.id for n in ast.walk(f.node) if isinstance(n, ast.Name)} | set(params)
+        new_names = {fl_: (fl_ if fl_ not in taken else f"{prm}__{fl_}") for fl_ in flds}
+        # rewrite
+        class Tr(ast.NodeTransformer):
+            def visit_Attribute(self, n):
+                if id(n.value) in field_reads and field_reads[id(n.value)] is n:
+                    return ast.copy_location(ast.Name(id=new_names[n.attr], ctx=ast.Load()), n)
+                self.generic_visit(n)
+                return n
+        f.node.body = [Tr().visit(b) for b in f.node.body]
+        for c in [c for c in ast.walk(f.node) if isinstance(c, ast.Call) and own_call(c)]:
+            c.args = c.args[:idx] + [ast.copy_location(ast.Name(id=new_names[fl_], ctx=ast.Load()), c) for fl_ in flds] + c.args[idx + 1:]
+        old_arg = f.node.args.args[idx]
+        f.node.args.args = f.node.args.args[:idx] + [ast.copy_location(ast.arg(arg=new_names[fl_], annotation=None), old_arg) for fl_ in flds] \
+            + f.node.args.args[idx + 1:]
+        call.args = call.args[:idx] + [ast.copy_location(ast.Name(id=given[fl_].id, ctx=ast.Load()), call) for fl_ in flds] + call.args[idx + 1:]
+        ast.fix_missing_locations(f.node)
+        ast.fix_missing_locations(top.node)
+        ctx.assume(f"the parameter object `{a.id} = {ctor.func.id}(..)` of {f.name} is read as its separate fields {', '.join(flds)}")
+        return
+
+
 def check(ctx):
     _classmethods_as_static(ctx)
+    _explode_param_object(ctx)
     ctx.assume("attribute values reach the table as str (str(), strftime, literals); multi-line texts are out of scope")
     ctx.assume("`fields` is a collection that can be iterated more than once (header and every task row)")
     ctx.assume("term expansion assumes no aliasing writes between a definition and its use inside one function")
@@ -186,6 +285,18 @@ def _subtree(ctx):
             raise
     ctx._c20_subtree = f
     return f
+
+
+def _visits_without_recursion(f):
+    """text when the row writer does not call itself but still reaches descendants (a flat pass over all_children, an
+    explicit stack over children): a shape the recursion-based obligations do not describe - neither right nor wrong"""
+    if facts.calls_named(f, f.name):
+        return None
+    hit = next((n for n in walk_no_nested(f.node) if isinstance(n, ast.Attribute) and n.attr in ('children', 'all_children')), None)
+    if hit is None:
+        return None
+    return (f"{f.name} does not call itself but reads `{src(hit)}`: descendants are printed by a flat pass / explicit stack, "
+            f"which the rule cannot follow")
 
 
 def _subtree_qual(ctx):
@@ -568,8 +679,14 @@ def _rows(ctx):
                                                "(task of the loop, fields, level constant, table, children, theme)")
         return
     P = roles
+    flat = _visits_without_recursion(f)
+    if flat:
+        for o_ in (o_row, o_rec):
+            o_.undecided(f, f.node, 'no recursion', flat)
 
     def sub(_):
+        if flat:
+            return
         tables = {P['table']}
         for val in (True, False):
             c = Counter(ctx, stop=[SUBQ], free=P.get('_closure', ()))
@@ -610,6 +727,8 @@ def _rows(ctx):
     ctx.guarded(o_row, sub)
 
     def rec(o):
+        if flat:
+            return
         ex = Expander(prog, f, ctx.typer)
         cfg = cfg_of(f)
         calls = facts.calls_named(f, f.name)
@@ -1011,6 +1130,11 @@ def _indent(ctx):
             o.undecided(top, top.node, 'repr', "call of __print_task_subtree in _Repr.repr not understood")
             return
         P = roles
+        flat = _visits_without_recursion(f)
+        if flat:
+            o.undecided(f, f.node, 'no recursion', flat + "; the depth of a descendant is then computed in the pass itself, which the rule "
+                                                          "cannot check against the tree")
+            return
         cfg = cfg_of(f)
         ex = Expander(prog, f, ctx.typer)
         level, abs_depth = _name_cells(ctx, o, f, P, list(f.params), lambda d: d.kind == 'param')
@@ -1938,37 +2062,55 @@ def _row_render(ctx):
                 if not (isinstance(m['i'], ast.Name) and m['i'].id == idx):
                     o2.refute(f, n, wd, f"cell of column `{idx}` is padded to the width of column `{src(m['i'])}`")
                     continue
-                parts = parts_of(text)
-                tparts = [p for p in parts if isinstance(p, ast.Attribute) and p.attr == 'text']
-                consts = [const_str(p) for p in parts if not any(p is t for t in tparts)]
-                if any(cst is None for cst in consts) or len(tparts) > 1:
-                    o2.undecided(f, n, text, f"cell text `{src(text)[:80]}` is not constants around one cell text")
-                    continue
-                L = sum(len(cst) for cst in consts)
-                if tparts:
-                    cell = _cell_of(tparts[0].value)
-                    if cell is None or not (match(sn, cell[0])):
-                        o2.undecided(f, n, text, f"`{src(tparts[0])}` is not the text of a cell of this row")
+                cell_init = prog.func('utils._TextTableCell.__init__')
+                textn = _norm_cell_text(text, cell_init)
+                for _cs, parts in cases_of(textn):
+                    # str methods applied to the cell text while rendering: the widths were measured from the raw text
+                    chains = [(p, _text_chain(p, lambda r_: isinstance(r_, ast.Attribute) and r_.attr == 'text')) for p in parts]
+                    chains = [(p, ch) for p, ch in chains if ch]
+                    if chains:
+                        p, ch = chains[0]
+                        bad_ = [c_ for c_ in ch if c_[0] in ('longer', 'strip')]
+                        if bad_ and bad_[0][0] == 'longer':
+                            o2.refute(f, n, p, f"the cell text is changed by `{src(bad_[0][1])[:80]}` while the row is rendered, but the column "
+                                               f"widths were measured from the raw cell text: {bad_[0][2]}, so such a cell is wider than its column")
+                        elif bad_:
+                            o2.refute(f, n, p, f"the cell text is stripped (`{src(bad_[0][1])[:60]}`) while the row is rendered: leading spaces - "
+                                               f"the indentation of a name cell - are removed")
+                        else:
+                            o2.undecided(f, n, p, f"the cell text is transformed by `{src(p)[:80]}` while the row is rendered; the widths were "
+                                                  f"measured from the raw text")
                         continue
-                    if isinstance(cell[1], ast.Name) and cell[1].id == '__i' and idx != '__i':
-                        o2.undecided(f, n, text, "the cell comes from a zip / slice loop the rule cannot align with the columns")
+                    tparts = [p for p in parts if isinstance(p, ast.Attribute) and p.attr == 'text']
+                    consts = [const_str(p) for p in parts if not any(p is t for t in tparts)]
+                    if any(cst is None for cst in consts) or len(tparts) > 1:
+                        o2.undecided(f, n, text, f"cell text `{src(text)[:80]}` is not constants around one cell text")
                         continue
-                    if not (isinstance(cell[1], ast.Name) and cell[1].id == idx):
-                        o2.refute(f, n, text, f"column `{idx}` prints cell `{src(cell[1])}`")
-                        continue
-                    if k < L:
-                        o2.refute(f, n, wd, f"the cell text is len(text) + {L} characters but is padded to `{src(wd)}`: the longest cell of a "
-                                            f"column overflows it, lines get different widths")
-                        continue
-                    if k > L:
-                        o2.undecided(f, n, wd, f"cells are padded to `{src(wd)}`, wider than the decoration ({L}) needs")
-                        continue
-                    o2.site(f, n, f"colored_text({src(text)}, {src(wd)}, ..)")
-                else:
-                    if L > k:
-                        o2.refute(f, n, wd, f"a missing cell prints {L} characters but is padded to `{src(wd)}` only")
-                        continue
-                    o2.site(f, n, f"missing cell: colored_text({src(text)}, {src(wd)}, ..)")
+                    L = sum(len(cst) for cst in consts)
+                    if tparts:
+                        cell = _cell_of(tparts[0].value)
+                        if cell is None or not (match(sn, cell[0])):
+                            o2.undecided(f, n, text, f"`{src(tparts[0])}` is not the text of a cell of this row")
+                            continue
+                        if isinstance(cell[1], ast.Name) and cell[1].id == '__i' and idx != '__i':
+                            o2.undecided(f, n, text, "the cell comes from a zip / slice loop the rule cannot align with the columns")
+                            continue
+                        if not (isinstance(cell[1], ast.Name) and cell[1].id == idx):
+                            o2.refute(f, n, text, f"column `{idx}` prints cell `{src(cell[1])}`")
+                            continue
+                        if k < L:
+                            o2.refute(f, n, wd, f"the cell text is len(text) + {L} characters but is padded to `{src(wd)}`: the longest cell of a "
+                                                f"column overflows it, lines get different widths")
+                            continue
+                        if k > L:
+                            o2.undecided(f, n, wd, f"cells are padded to `{src(wd)}`, wider than the decoration ({L}) needs")
+                            continue
+                        o2.site(f, n, f"colored_text({src(ast.fix_missing_locations(tparts[0]))} + {L} characters, {src(wd)}, ..)")
+                    else:
+                        if L > k:
+                            o2.refute(f, n, wd, f"a missing cell prints {L} characters but is padded to `{src(wd)}` only")
+                            continue
+                        o2.site(f, n, f"missing cell: {L} characters padded to {src(wd)}")
                 wds.append((n, wd))
         for n, wd in wds[1:]:
             if not same(wd, wds[0][1]):
@@ -2082,6 +2224,26 @@ def _pad_case(o, f, r, v, parts, conds, tp, wp):
         o.site(f, r, f"[{conds}] returns {shown[:90]}")
 
 
+def _norm_cell_text(e, cell_init):
+    """(A if c else B).text -> A.text if c else B.text;  _TextTableCell(T, ..).text -> T  (the constructor stores its text
+    argument unchanged - checked by width_table_plumbing)"""
+    import copy as _copy
+
+    class Tr(ast.NodeTransformer):
+        def visit_Attribute(self, n):
+            self.generic_visit(n)
+            if isinstance(n.value, ast.IfExp):
+                mk = lambda v: self.visit(ast.Attribute(value=v, attr=n.attr, ctx=ast.Load()))
+                return ast.IfExp(test=n.value.test, body=mk(n.value.body), orelse=mk(n.value.orelse))
+            if n.attr == 'text' and isinstance(n.value, ast.Call) and isinstance(n.value.func, ast.Name) and n.value.func.id == '_TextTableCell':
+                b = bind_args(n.value, cell_init, drop_self=True)
+                tpar = cell_init.params[1] if len(cell_init.params) > 1 else None
+                if b and tpar in b:
+                    return b[tpar]
+            return n
+    return Tr().visit(_copy.deepcopy(e))
+
+
 def _text_chain(p, tp):
     """p is the text parameter sent through str methods (`text.replace(a, b).expandtabs()`): the steps, outermost first, as
     ('same' | 'shorter' | 'longer' | 'strip' | 'unknown', call node, explanation); None when p is not such a chain"""
@@ -2099,12 +2261,14 @@ def _text_chain(p, tp):
             out.append(('longer', e, "every tab becomes up to 8 spaces"))
         elif name in ('strip', 'lstrip'):
             out.append(('strip', e, ''))
-        elif name in ('rstrip', 'upper', 'lower'):
-            out.append(('shorter' if name == 'rstrip' else 'same', e, ''))
+        elif name == 'rstrip':
+            out.append(('shorter', e, ''))
+        elif name in ('upper', 'lower', 'title', 'capitalize', 'casefold', 'swapcase'):
+            out.append(('longer', e, f"some characters change their length under .{name}() ('\u00df'.upper() == 'SS')"))
         else:
             out.append(('unknown', e, ''))
         e = e.func.value
-    if out and isinstance(e, ast.Name) and e.id == tp:
+    if out and (tp(e) if callable(tp) else (isinstance(e, ast.Name) and e.id == tp)):
         return out
     return None
 
@@ -2900,6 +3064,14 @@ def _usage(ctx):
                 return
             d, dref = got['d'], got['dref']
         for what, v, node, fn, other in bounds:
+            if isinstance(v, ast.Name):
+                skipped = _running_extreme_skipped(f, v.id, fn)
+                if skipped is not None:
+                    st_, guard_, foreign_ = skipped
+                    o.refute(f, st_, st_, f"the {what} `{v.id}` is a running {fn}imum, but its update `{src(st_)[:60]}` (under `{src(guard_)}`) "
+                                          f"is skipped in every round in which `{src(foreign_)}` holds (elif): a round that moves both ends "
+                                          f"of the period only moves the other one, the table ends before / starts after the real {what}")
+                    continue
             check_bound(o, f, rows, what, v, node, fn, other)
         # step / rows per iteration
         def classify(node, g):
@@ -2936,8 +3108,16 @@ def _usage(ctx):
             return
         rl = inner[0]
         ratom = c.loop_atom(f, rl)
+        # the cells of a day line may come from a package generator that yields one (text, ..) per resource
+        gs = gen_summary(c, f, rl.iter) if isinstance(rl.iter, ast.Call) else None
+        if gs is not None and (gs['b'] is None or gs['src'] not in gs['b']):
+            gs = None
         want = {(): (1, 1), (ratom,): (1, 1), (watom,): (1, 1), (watom, ratom): (1, 1)}
-        _verdict(o2, f, f.node, 'cells', "table.new_cell", main.get('new_cell', {}), want)
+        if is_opaque(ratom):
+            o2.undecided(f, rl, rl.iter, f"the cells of a day line come from `{src(rl.iter)[:70]}`, whose length the rule cannot relate to "
+                                         f"the header columns")
+        else:
+            _verdict(o2, f, f.node, 'cells', "table.new_cell", main.get('new_cell', {}), want)
         hdr_loops = [fo for x in cell_calls if not in_w(x) for fo in cfg.enclosing_fors(cfg.node_containing(x))]
         if ratom.startswith('var:'):
             rv = ratom[4:]
@@ -2945,7 +3125,7 @@ def _usage(ctx):
                 o2.site(f, rl, f"header and day rows iterate the same `{rv}`")
             else:
                 o2.refute(f, rl, 'resources redefined', f"`{rv}` is redefined between the header and the day rows: columns differ")
-        rit = ex.expand(rl.iter, cfg.node_of(rl))
+        rit = ex.expand(gs['b'][gs['src']] if gs else rl.iter, cfg.node_of(rl))
         m = match("set($x)", rit)
         inner_c = m['x'] if m else rit
         parts = facts.comp_parts(inner_c) if isinstance(inner_c, (ast.ListComp, ast.GeneratorExp, ast.SetComp)) else None
@@ -2959,7 +3139,25 @@ def _usage(ctx):
             o2.undecided(f, rl, rl.iter, f"resource columns `{src(rit)[:80]}` are not the set of resources of all stored rows")
         kvar = rl.target.id if isinstance(rl.target, ast.Name) else None
         res_calls = [x for x in facts.calls_named(f, 'reserved') if in_w(x) and match(f"{sn}.reserved($*a)", x)]
-        if not res_calls:
+        if gs is not None and not res_calls:
+            # reserved(resource, day) is computed inside the generator: its loop variable and the parameter the day is bound to
+            G = gs['G']
+            gsn = G.self_name if G.kind == 'method' else None
+            gday = [p_ for p_, a_ in gs['b'].items() if isinstance(a_, ast.Name) and a_.id == d]
+            gcalls = [x for x in facts.calls_named(G, 'reserved') if gsn and match(f"{gsn}.reserved($*a)", x)]
+            gk = gs['loop'].target.id if isinstance(gs['loop'].target, ast.Name) else None
+            if not gcalls or len(gday) != 1 or not (isinstance(rl.iter.func, ast.Attribute) and match(sn, rl.iter.func.value)):
+                o2.undecided(f, rl, 'reserved', "resource cells do not show self.reserved(resource, day)")
+            for x in gcalls if len(gday) == 1 else []:
+                b = bind_args(x, prog.func('schedule.ResourceUsageReport.reserved'), drop_self=True)
+                vals = list(b.values()) if b else []
+                if len(vals) == 2 and isinstance(vals[0], ast.Name) and vals[0].id == gk and isinstance(vals[1], ast.Name) and vals[1].id == gday[0] \
+                        and all(d_.kind == 'param' for d_ in flow_of(G).defs_of(gday[0])) and fl.same_version(d, dref, cfg.node_of(rl)) \
+                        and any(x is n_ for n_ in ast.walk(gs['loop'])):
+                    o2.site(G, x, f"{src(x)} in {G.qual}, called with ({src(gs['b'][gs['src']])}, {d})")
+                else:
+                    o2.refute(G, x, x, f"resource cell shows `{src(x)}`, expected reserved({gk}, {gday[0]}) for the day of this line")
+        elif not res_calls:
             o2.undecided(f, rl, 'reserved', "resource cells do not show self.reserved(resource, day)")
         for x in res_calls:
             b = bind_args(x, prog.func('schedule.ResourceUsageReport.reserved'), drop_self=True)
@@ -2980,6 +3178,39 @@ def _usage(ctx):
                 else:
                     o2.refute(f, x, x, f"the first cell of a day line `{src(a0) if a0 is not None else ''}` does not show the day `{d}`")
     ctx.guarded(o, run)
+
+
+def _running_extreme_skipped(f, name, fn):
+    """`name` is folded as a running max / min inside a loop (`if E > name: name = E`), and that update sits in the
+    else-branch of an unrelated test (`if A < lo: lo = A  elif E > name: name = E` with A different from E): it is skipped
+    whenever the other test holds.  -> (update statement, its guard, the foreign test) or None.
+    (`if v < lo: lo = v  elif v > hi: hi = v` on ONE value v is the correct classic and not reported.)"""
+    cfg, fl = cfg_of(f), flow_of(f)
+    want = ('<', '<=') if fn == 'max' else ('>', '>=')
+    for d in fl.defs_of(name):
+        if d.kind != 'assign' or d.node is None or d.value is None or not cfg.enclosing_loops(d.node):
+            continue
+        conds = cfg.conditions(d.node)
+        guard = None
+        for t, p in conds:
+            c = cmp_oriented(t, p, lambda x: isinstance(x, ast.Name) and x.id == name)
+            if c and c[1] in want and same(c[2], d.value):
+                guard = t
+        if guard is None:
+            continue
+        for t, p in conds:
+            if t is guard or p:
+                continue
+            c = cmp_norm(t, True)
+            if c is None or c[1] not in ('<', '<=', '>', '>='):
+                continue
+            if mentions(t, name) or any(same(x, d.value) for x in ast.walk(t)):
+                continue
+            # the foreign test must belong to the same if/elif chain inside the loop body
+            if not cfg.enclosing_loops(cfg.node_containing(t) or d.node):
+                continue
+            return d.stmt, guard, t
+    return None
 
 
 def _for_day_loop(ctx, o, f, w, it, ex, cfg, bounds, while_loop, step_sizes, day_offset):
@@ -3240,6 +3471,9 @@ def _field_texts(ctx):
         for c in raw:
             cn = cfg.node_containing(c)
             a = c.args[0] if isinstance(c.func, ast.Attribute) else c.args[1]
+            if isinstance(a, ast.Name) and _must_be_attribute(f, cfg, ex, t, a.id, cn):
+                o.site(f, c, f"unknown field -> '': on every path to the read `{a.id} in {t}.__dict__` was established last")
+                continue
             why = _lookup_guarded(ex, cfg, f, t, a, cn)
             if isinstance(c.func, ast.Name) and len(c.args) == 3 and not (why and why[0] == 'ok'):
                 # getattr with a default never raises, but it resolves class attributes as well
@@ -3295,6 +3529,51 @@ def ctx_target(ctx, f, call):
             if ci.resolved and len(tg) == 1 and tg[0].qual not in (LINK_ONE, LINK_MANY):
                 return tg[0]
     return None
+
+
+def _must_be_attribute(f, cfg, ex, t, name, at):
+    """forward must-analysis of the fact `<name> in t.__dict__`: generated by a branch on `name [not] in t.__dict__` /
+    `vars(t)` (the container may be a local alias), killed by every new definition of the name; True when the fact holds on
+    every path that reaches cfg node `at` (`if n not in D: n = n.lower(); if n not in D: return ''` ... read n)"""
+    fl = flow_of(f)
+
+    def gen(n):
+        if n.kind != 'branch' or n.test is None or isinstance(n.test, (ast.For, ast.AsyncFor, ast.While)):
+            return False
+        for a, ap in facts.split_conj(n.test, bool(n.polarity)):
+            while isinstance(a, ast.UnaryOp) and isinstance(a.op, ast.Not):
+                a, ap = a.operand, not ap
+            if isinstance(a, ast.Compare) and len(a.ops) == 1 and isinstance(a.ops[0], (ast.In, ast.NotIn)) \
+                    and isinstance(a.left, ast.Name) and a.left.id == name:
+                holds = ap if isinstance(a.ops[0], ast.In) else not ap
+                cont = a.comparators[0]
+                try:
+                    contx = ex.expand(cont, cfg.node_containing(n.test) or n)
+                except Exception:
+                    contx = cont
+                if holds and any(match(f"{t}.__dict__", c_) or match(f"vars({t})", c_) for c_ in (cont, contx)):
+                    return True
+        return False
+
+    def kill(n):
+        return any(d.var == name for d in fl.node_defs.get(n.id, []))
+
+    out = {n.id: True for n in cfg.nodes}
+    out[cfg.entry.id] = False
+    changed = True
+    rounds = 0
+    while changed and rounds < 50:
+        changed = False
+        rounds += 1
+        for n in cfg.nodes:
+            if n is cfg.entry:
+                continue
+            inn = all(out[p.id] for p in n.pred) if n.pred else False
+            val = True if gen(n) else (inn and not kill(n))
+            if val != out[n.id]:
+                out[n.id] = val
+                changed = True
+    return bool(at.pred) and all(out[p.id] for p in at.pred)
 
 
 def _lookup_guarded(ex, cfg, f, t, name_expr, cn):
